@@ -92,6 +92,11 @@ def gen_interp(rng):
         tq = [t + rng.choice([tiny, -tiny, 0]) for t in ts]
         if all(a == b for a, b in zip(tq, ts)):
             tq[-1] = ts[-1] + tiny
+        import random
+        r2 = random.Random(repr((ts, cols)))        # (own stream: the main one is left as it was)
+        if n >= 3 and r2.random() < 0.5:
+            # same number of points, same first and last point, other points in between
+            tq = [ts[0]] + [ts[i] + (ts[i + 1] - ts[i]) * Fraction(r2.randint(1, 7), 8) for i in range(1, n - 1)] + [ts[-1]]
     else:
         tq = [qpoint() for _ in range(rng.randint(1, 5))]
     return {"k": "interp", "kind": kind, "mode": rng.randint(0, 2), "ts": [fx(x) for x in ts],
